@@ -204,7 +204,12 @@ pub fn c09_loose_case(bytes: &[u8], stats: &mut Stats, counting: bool, cfg: &Gen
         let v = if is_regex && t.base == "String" && !t.is_list() {
             crate::values::Value::str(["a", "^a", "b$", "a.c", "."][ac.below(5)])
         } else {
-            crate::data::gen_value_of_type(&mut ac, &t, 0)
+            // (never the invalid pattern of the data pool: which variables end up as regex patterns is the engine's
+            // business in this mode, and invalid regex arguments are a listed finding probed elsewhere)
+            match crate::data::gen_value_of_type(&mut ac, &t, 0) {
+                crate::values::Value::Str(s) if s == "(" => crate::values::Value::str("a"),
+                other => other,
+            }
         };
         args.insert(name.to_string(), v);
     }
